@@ -150,6 +150,17 @@ fn dangerous() -> Vec<u8> {
 fn listing_part(rep: &mut Report, thorough: bool) -> (u64, u64, Vec<Value>) {
     // the values: (host-name option bytes or None, client identifier bytes or None)
     let mut vals: Vec<(Option<Vec<u8>>, Option<Vec<u8>>)> = vec![(None, None), (Some(vec![]), None), (None, Some(vec![]))];
+    // further options a client may put into its DISCOVER (they are stored with the lease and read
+    // again by the listing): every option code x value lengths 0..4 and 255, no host name
+    let mut extras: Vec<(u8, Vec<u8>)> = vec![];
+    for code in 1..=254u8 {
+        if [12u8, 50, 51, 53, 54, 61].contains(&code) {
+            continue;
+        }
+        for len in [0usize, 1, 2, 3, 4, 255] {
+            extras.push((code, vec![if len % 2 == 0 { 0xff } else { 0x01 }; len]));
+        }
+    }
     for b in 0..=255u8 {
         vals.push((Some(vec![b]), None));
         vals.push((Some(vec![b'h', b, b'z']), None));
@@ -196,6 +207,8 @@ fn listing_part(rep: &mut Report, thorough: bool) -> (u64, u64, Vec<Value>) {
     let mut n = 0u64;
     let mut classes = std::collections::BTreeSet::new();
     let mut samples = vec![];
+    let vals: Vec<(Option<Vec<u8>>, Option<Vec<u8>>, Option<(u8, Vec<u8>)>)> = vals.into_iter().map(|(h, c)| (h, c, None)).chain(extras.iter().map(|e| (None, None, Some(e.clone())))).collect();
+    let mut extras_not_leased = 0u64;
     for (bi, batch) in vals.chunks(1800).enumerate() {
         let path = format!("{dir}/listing{bi}.sqlite");
         let _ = std::fs::remove_file(&path);
@@ -210,7 +223,7 @@ fn listing_part(rep: &mut Report, thorough: bool) -> (u64, u64, Vec<Value>) {
         // real DISCOVERs
         {
             let g = conf.try_read().expect("conf");
-            for (i, (host, cid)) in batch.iter().enumerate() {
+            for (i, (host, cid, extra)) in batch.iter().enumerate() {
                 let mut other: std::collections::HashMap<erbium::dhcp::dhcppkt::DhcpOption, Vec<u8>> = Default::default();
                 use erbium::dhcp::dhcppkt::*;
                 other.insert(OPTION_MSGTYPE, vec![1]);
@@ -224,6 +237,9 @@ fn listing_part(rep: &mut Report, thorough: bool) -> (u64, u64, Vec<Value>) {
                     }
                     other.insert(OPTION_CLIENTID, c);
                 }
+                if let Some((code, v)) = extra {
+                    other.insert(DhcpOption::from(*code), v.clone());
+                }
                 let chaddr = vec![2, 1, (bi as u8), (i >> 8) as u8, i as u8, 7];
                 let req = erbium::dhcp::DHCPRequest {
                     pkt: Dhcp { op: OP_BOOTREQUEST, htype: HWTYPE_ETHERNET, hlen: 6, hops: 0, xid: i as u32, secs: 0, flags: 0, ciaddr: "0.0.0.0".parse().unwrap(), yiaddr: "0.0.0.0".parse().unwrap(), siaddr: "0.0.0.0".parse().unwrap(), giaddr: "0.0.0.0".parse().unwrap(), chaddr, sname: vec![], file: vec![], options: DhcpOptions { other } },
@@ -234,6 +250,7 @@ fn listing_part(rep: &mut Report, thorough: bool) -> (u64, u64, Vec<Value>) {
                 };
                 match panics::catch(|| erbium::dhcp::handle_pkt(&mut p, &req, Default::default(), &g)) {
                     Ok(Ok(_)) => {}
+                    Ok(Err(_)) if extra.is_some() => extras_not_leased += 1,
                     Ok(Err(e)) => {
                         rep.machinery_error(format!("DISCOVER {i} of batch {bi} got no lease: {e}"));
                         return (n, 0, vec![]);
@@ -340,6 +357,7 @@ fn listing_part(rep: &mut Report, thorough: bool) -> (u64, u64, Vec<Value>) {
         }
     }
     let _ = std::fs::remove_dir_all(&dir);
+    rep.cov("listing_extra_options", json!({"leases_with_one_further_option": extras.len() as u64 - extras_not_leased, "not_leased": extras_not_leased, "rule": "one lease per (option code 1..254 except 12/50/51/53/54/61, value length 0/1/2/3/4/255) carried in the DISCOVER, no host name: the listing must still be valid JSON with one entry per row"}));
     (n, classes.len() as u64, samples)
 }
 
